@@ -15,7 +15,7 @@
 EXTENDS Integers, Sequences, FiniteSets, TLC, Json, TLCExt
 TraceLog == ndJsonDeserialize("hist.ndjson")
 MaxS == 6
-NoneG == [kind |-> "none", fields |-> <<>>, hooks |-> <<>>, goctx |-> 0, level |-> -1, dest |-> 0, used |-> FALSE]
+NoneG == [kind |-> "none", fields |-> <<>>, hooks |-> <<>>, goctx |-> 0, level |-> -1, dest |-> 0, used |-> FALSE, stack |-> FALSE]
 VARIABLES g, branched, base, l, failed, bad
 tvars == <<g, branched, base, l, failed, bad>>
 RootG == [NoneG EXCEPT !.kind = "L"]
@@ -30,6 +30,7 @@ Derive(e) ==
   CASE e.a = "With"   -> Put(e.i, e.j, [s EXCEPT !.kind = "C", !.used = FALSE]) /\ UNCHANGED branched
     [] e.a = "Field"  -> Put(e.i, e.j, [s EXCEPT !.fields = Append(@, e.arg), !.used = FALSE]) /\ Branch(e.i)
     [] e.a = "GoCtx"  -> Put(e.i, e.j, [s EXCEPT !.goctx = e.arg, !.used = FALSE]) /\ Branch(e.i)
+    [] e.a = "Stack" -> Put(e.i, e.j, [s EXCEPT !.stack = TRUE, !.used = FALSE]) /\ UNCHANGED branched
     [] e.a = "CtxReset" -> Put(e.i, e.j, [s EXCEPT !.fields = <<>>, !.used = FALSE]) /\ UNCHANGED branched   \* fresh array: cannot alias
     [] e.a = "Logger" -> Put(e.i, e.j, [s EXCEPT !.kind = "L", !.used = FALSE]) /\ Branch(e.i)
     [] e.a = "Level"  -> Put(e.i, e.j, [s EXCEPT !.level = e.arg]) /\ UNCHANGED branched
@@ -49,6 +50,8 @@ EmitOK(e) ==
   /\ \A k \in 1..Len(e.nested) : e.nested[k] \in {0, s.goctx}    \* nested marshalers: own context or background, never a stale one
   /\ e.dest = s.dest                                             \* Output changes the destination and nothing else
   /\ e.debug = (s.level <= 0) /\ e.info = (s.level <= 1)         \* its own level
+  /\ e.stacktop = s.stack                                        \* an error logged through it carries a stack iff ITS path called Stack()
+  /\ ~e.stacknested                                              \* temporaries (zerolog.Dict() built before or after the event) never do
 Sig(e) == IF branched THEN "CtxValueBranchedSig" ELSE ""
 
 TNext ==
